@@ -192,3 +192,86 @@ def run(pid, tier, seed, count):
             failures.append(Failure("correspondence", "K-build-check(model %s, constructor %s)" % (model, real), tb,
                                     dict(model=model, real=real), slice_="K"))
     return stats, failures
+
+
+# ---------------------------------------------------------------------------------------------
+# C20: a DAG whose node table is NOT in dependency order (hand-built, or returned by compose) called inside a DAG
+# ---------------------------------------------------------------------------------------------
+def run_nested(pid, tier, seed, count, tables=None):
+    """Acyclic tables only.  (1) the hand-built DAG (random listing order) and (2) a DAG composed from the traced
+    version of the same table (compose keeps its nodes in set order) are each called inside an outer DAG; the outer
+    DAG must build and return what the inner one returns when called directly (= the sequential values)."""
+    import asyncio
+    import warnings
+    from tawazi import xn
+    from tawazi._dag.constructor import threadsafe_make_dag
+    Failure = common.Failure
+    rng0 = random.Random("%s/kn/%d" % (pid, seed))
+    failures = []
+    stats = dict(nested_handbuilt=0, nested_composed=0, listing_order_not_topological=0)
+
+    def nest_and_run(inner, tb, what):
+        def outer():
+            return inner()
+        outer.__name__ = outer.__qualname__ = "outer_of_" + what
+        try:
+            d = threadsafe_make_dag(outer, tb["maxc"], tb["is_async"])
+        except BaseException as e:  # noqa: BLE001
+            failures.append(Failure("counterexample", "nested-%s-dag-build-raised:%s" % (what, type(e).__name__), tb,
+                                    dict(message=str(e)[:200]), slice_="K"))
+            return None
+        R, outc = control.run_controlled(lambda: asyncio.run(d()) if tb["is_async"] else d(),
+                                         control.Script(rng=random.Random(rng0.randrange(1 << 30))), timeout=15)
+        return outc
+
+    for k in range(count if tables is None else len(tables)):
+        tb = gen_table(random.Random(rng0.randrange(1 << 62))) if tables is None else tables[k]
+        if is_cyclic(tb):
+            continue
+        want = want_values(tb)
+        g = nx.DiGraph()
+        g.add_nodes_from(range(tb["n"]))
+        for v, ps in enumerate(tb["preds"]):
+            for p in ps:
+                g.add_edge(p, v)
+        posn = {v: i for i, v in enumerate(tb["order"])}
+        if any(posn[p] > posn[v] for v, ps in enumerate(tb["preds"]) for p in ps):
+            stats["listing_order_not_topological"] += 1
+        # (1) hand-built
+        real, hb = construct(dict(tb, is_async=False))
+        if real == "ACCEPT":
+            stats["nested_handbuilt"] += 1
+            outc = nest_and_run(hb, tb, "handbuilt")
+            if outc is not None and (outc[0] != "ok" or tuple(outc[1]) != want):
+                failures.append(Failure("counterexample", "nested-handbuilt-dag-differs-from-inlining", tb,
+                                        dict(real=repr(outc)[:300], want=repr(want)[:300]), slice_="K"))
+        # (2) composed from the traced version
+        topo = list(nx.topological_sort(g))
+
+        def mk(v):
+            def body(*args):
+                return ("k%d" % v,) + tuple(args)
+            body.__name__ = body.__qualname__ = "k%d" % v
+            return xn(body)
+        fns = {v: mk(v) for v in range(tb["n"])}
+
+        def traced():
+            vals = {}
+            for v in topo:
+                vals[v] = fns[v](*[vals[p] for p in tb["preds"][v]])
+            return tuple(vals[v] for v in range(tb["n"]))
+        traced.__name__ = traced.__qualname__ = "traced"
+        try:
+            flat = threadsafe_make_dag(traced, 1, False)
+            with warnings.catch_warnings():
+                warnings.simplefilter("ignore")
+                comp = flat.compose("composed", [], ["k%d" % v for v in range(tb["n"])])
+        except BaseException as e:  # noqa: BLE001
+            failures.append(Failure("correspondence", "K-compose-raised:" + type(e).__name__, tb, dict(message=str(e)[:200]), slice_="K"))
+            continue
+        stats["nested_composed"] += 1
+        outc = nest_and_run(comp, tb, "composed")
+        if outc is not None and (outc[0] != "ok" or tuple(outc[1]) != want):
+            failures.append(Failure("counterexample", "nested-composed-dag-differs-from-inlining", tb,
+                                    dict(real=repr(outc)[:300], want=repr(want)[:300]), slice_="K"))
+    return stats, failures
